@@ -60,6 +60,9 @@ var c16Valid = []string{
 	`"a","b"`, "a,b,c", `"k":"v","k2":"v2"`, "k:v", `"x\ty"`, "1,2,3", "-128,127", "0,65535",
 	"JSONFilePath", "userID", "tKK", "İİİA", "ÅngströmUnit", "ΩmegaValue", "straßeName", "KelvinKScale", "lower_snake_case", "UPPER_SNAKE_CASE", "kebab-case-string", "Case_Preserving_Snake", "lowerCamelCase", "HTTPSPort2",
 	`{"a":1,"b":{"c":[1,2,3],"d":"x"}}`,
+	`{"waits":["1s",null,"3s"],"wait_by":{"a":null,"b":"2s"},"pair":[null,"1ms"],"elems":[{"X":1},{"X":2},{"X":3},{"X":4},{"X":5}]}`,
+	`{"waits":[1000,"2s",3],"wait_by":{"a":7},"pair":[0,0],"elems":[{"X":1},{"X":2},{"X":3}]}`,
+	"waits: [1s, null, 3s]\nwait_by: {a: null, b: 2s}\npair: [null, 1ms]\nelems:\n  - x: 1\n  - x: 2\n  - x: 3\n",
 	`{"port":1,"level":2,"tags":["a"],"nested":{"depth":3,"names":["n"]},"elems":[{"X":1,"Y":"y"}],"hidden":[{"X":2,"Y":"z"}],"pair":[{"X":1},{"Y":"q"}],"labels":{"k":"v"},"wait":"3s","when":"2020-01-02T03:04:05Z"}`,
 	"port: 1\ntags: [a, b]\nnested:\n  depth: 2\nelems:\n  - x: 1\n    y: w\nhidden:\n  - x: 2\nlabels:\n  k: v\nwait: 3s\n",
 	"port = 1\ntags = [\"a\"]\nwait = \"3s\"\n[nested]\ndepth = 2\n[[elems]]\nX = 1\n[[hidden]]\nX = 2\nY = \"h\"\n[labels]\nk = \"v\"\n",
@@ -138,6 +141,15 @@ type c16Rich struct {
 	Elems  []gen.Elem        `dials:"elems"`
 	Hidden []gen.ElemHidden  `dials:"hidden"`
 	Pair   [2]gen.ElemHidden `dials:"pair"`
+}
+
+// c16DurColl: durations inside collections (the file decoders substitute a parsing type for time.Duration wherever
+// it occurs) and a list of structs, for the decoders only.
+type c16DurColl struct {
+	Waits  []time.Duration          `dials:"waits"`
+	WaitBy map[string]time.Duration `dials:"wait_by"`
+	Pair   [2]time.Duration         `dials:"pair"`
+	Elems  []gen.Elem               `dials:"elems"`
 }
 
 var c16RichFields = []string{"PORT", "LEVEL", "NAME", "RATIO", "ON", "WAIT", "WHEN", "TAGS", "NUMS", "LABELS", "SET", "MULTI", "CX", "NESTED_DEPTH", "NESTED_NAMES"}
@@ -326,6 +338,14 @@ func c16Targets() []c16Target {
 		if n == "cue" {
 			every = 6 // cue compilation costs ~1ms
 		}
+		durPtr := ptrify.Pointerify(reflect.TypeOf(c16DurColl{}), reflect.Value{})
+		ts = append(ts, c16Target{name: "decoder(durations in collections):" + n, every: every + 1, call: func(s string) (bool, bool) {
+			v, err := dec.Decode(strings.NewReader(s), dials.NewType(durPtr))
+			if err != nil {
+				return false, true
+			}
+			return true, v.IsValid() && v.Type() == durPtr
+		}})
 		ts = append(ts, c16Target{name: "decoder:" + n, every: every, call: func(s string) (bool, bool) {
 			v, err := dec.Decode(strings.NewReader(s), dials.NewType(richPtr))
 			if len(s)%2 == 0 {
